@@ -28,6 +28,14 @@ class HarnessError(Exception):
     """The machinery itself is broken (exit status 2, never a VIOLATION)."""
 
 
+class StopSearch(Exception):
+    """Raised by a check function to end its shard early (e.g. after a confirmed hang every further case would cost the watchdog time)."""
+
+
+class StopSearch(Exception):
+    """Raised by a check function to end its shard early (e.g. after a confirmed hang every further case would cost the watchdog time)."""
+
+
 class Inconclusive(Exception):
     """A case hit the time budget: counted, never a violation."""
 
@@ -330,6 +338,9 @@ def hyp_search(ctx, strategy, check, examples, label, max_buckets=4, shrink=True
                         suppress_health_check=list(HealthCheck))(test)
         try:
             test()
+        except StopSearch:
+            ctx.exclude("search-stopped-early")
+            break
         except Found:
             sig, msg, case = state["last"]
             ctx.fail(sig, msg, case)
